@@ -224,6 +224,140 @@ theorem apply_detach_full_refuted : ¬ apply_detach_full := by
   revert this
   decide
 
+/-! ### every view, one transaction -/
+
+theorem vget_saveView_cases (db v : View) (hv : NodupKeys v) (k : Nat) :
+    vget (saveView db v) k = eff db v k ∨
+      (vget (saveView db v) k = none ∧ ∃ e, eff db v k = some e ∧ keep e = false) := by
+  rw [Lemmas.Ledger.vget_saveView db v hv]
+  unfold eff
+  cases h : vget v k with
+  | none => exact Or.inl rfl
+  | some e =>
+    cases hk : keep e
+    · exact Or.inr ⟨by simp [hk], e, rfl, hk⟩
+    · exact Or.inl (by simp [hk])
+
+theorem proj_unspend {e : Entry} (hs : e.spent = false) :
+    proj (some ({ ({ e with spent := true } : Entry) with spent := false })) = proj (some e) := by
+  cases e; simp_all
+
+/-- **Every view, one transaction.**  For ANY persisted table `db` (no chain assumed) and any
+    transaction the view accepts as a block of its own at height `h`: attach, persist, detach,
+    persist succeeds; every key the transaction does not create has its persisted projection
+    back — spendable entries with type and coinbase / vote height, spent coinbase / vote records —
+    and the created outputs are not spendable. -/
+theorem apply_detach_single_tx_any_view (p : Params) (kindOf : Nat → OutKind) (db : View) (h : Nat) (t : Tx)
+    (hacc : (applyBlockTxs p h true [t] (loadSpent db [t] [])).isSome)
+    (hfresh : ∀ k ∈ keys (utxoOuts h true t.outs), k ∉ t.ins)
+    (hk : ∀ k ∈ t.ins, ∀ e, vget db k = some e →
+      ∃ t', utxoType (kindOf k) = some t' ∧ (¬ (e.typ = 1 ∨ e.typ = 2) → e.typ = t')) :
+    ∃ db2, roundTrip saveView p kindOf db (h, [t]) = some db2 ∧
+      (∀ k, k ∉ keys (utxoOuts h true t.outs) → proj (vget db2 k) = proj (vget db k)) ∧
+      (∀ k, k ∈ keys (utxoOuts h true t.outs) → spendProj (vget db2 k) = none) := by
+  rw [roundTrip_saveView]
+  have hext : ∃ db1, extendU p db (h, [t]) = some db1 := by
+    unfold extendU
+    cases hh : applyBlockTxs p h true [t] (loadSpent db [t] []) with
+    | none => rw [hh] at hacc; cases hacc
+    | some v => exact ⟨_, rfl⟩
+  obtain ⟨db1, h1⟩ := hext
+  rw [h1]
+  obtain ⟨v', hn', hdb1, happ⟩ := extendU_sem h1
+  -- forward
+  simp only [posTxs, applyListF, applyTxF] at happ
+  cases hsp : applySpendF p h t.ins (vget db) with
+  | none => rw [hsp] at happ; simp at happ
+  | some σ1 =>
+    rw [hsp] at happ
+    simp only [Option.some.injEq] at happ
+    obtain ⟨hnd, hall, hσ1⟩ := applySpendF_char hsp
+    have heff : ∀ k, k ∉ keys (utxoOuts h true t.outs) →
+        eff db v' k = if k ∈ t.ins then (vget db k).map (fun e => { e with spent := true }) else vget db k := by
+      intro k hk'
+      rw [← happ, applyOutputF_eq, updAll_not_mem hk', hσ1]
+    -- backward
+    have hcond : ∀ o ∈ t.ins, (∃ t', utxoType (kindOf o) = some t') ∧
+        (vget db1 o = none ∨ ∃ e, vget db1 o = some e ∧ e.spent = true) := by
+      intro o ho
+      obtain ⟨e, he, _⟩ := hall o ho
+      obtain ⟨t', ht', _⟩ := hk o ho e he
+      refine ⟨⟨t', ht'⟩, ?_⟩
+      have hnotU : o ∉ keys (utxoOuts h true t.outs) := fun hU => hfresh o hU ho
+      have := heff o hnotU
+      rw [if_pos ho, he] at this
+      simp only [Option.map_some] at this
+      rcases vget_saveView_cases db v' hn' o with hc | ⟨hc, _⟩
+      · right; rw [hdb1, hc, this]; exact ⟨_, rfl, rfl⟩
+      · left; rw [hdb1, hc]
+    obtain ⟨ρ1, hr1, hρ1⟩ := detachSpendF_ok (kindOf := kindOf) hnd hcond
+    have hsem := reorgView_sem p kindOf db1 [] [[t]]
+    simp only [List.flatMap_cons, List.flatMap_nil, List.reverse_cons, List.reverse_nil, List.nil_append,
+      List.append_nil, detachListF, detachTxF, hr1, flat, applyListF, Option.bind_some] at hsem
+    cases hv : reorgView p kindOf db1 [] [[t]] with
+    | none => rw [hv] at hsem; simp at hsem
+    | some v2 =>
+      rw [hv] at hsem
+      simp only [Option.map_some, Option.some.injEq] at hsem
+      have hn2 := reorgView_nodup hv
+      refine ⟨saveView db1 v2, by simp [hv], ?_, ?_⟩
+      · intro k hkU
+        rw [proj_save hn2, hsem, detachOutputF_eq,
+          updAll_not_mem (by rw [keys_goneOuts h true]; exact hkU), hρ1]
+        have hfw := heff k hkU
+        by_cases hin : k ∈ t.ins
+        · rw [if_pos hin]
+          obtain ⟨e, he, hs⟩ := hall k hin
+          rw [if_pos hin, he] at hfw
+          simp only [Option.map_some] at hfw
+          obtain ⟨t', ht', hty⟩ := hk k hin e he
+          rw [he]
+          rcases vget_saveView_cases db v' hn' k with hc | ⟨hc, e2, he2, hkeep⟩
+          · have : vget db1 k = some { e with spent := true } := by rw [hdb1, hc, hfw]
+            unfold restore
+            rw [this]
+            exact proj_unspend hs
+          · have : vget db1 k = none := by rw [hdb1, hc]
+            rw [hfw] at he2
+            cases he2
+            obtain ⟨_, hC⟩ := keep_false hkeep
+            unfold restore
+            rw [this, ht']
+            simp only [Option.getD_some]
+            unfold proj
+            have hC' : ¬ (t' = 1 ∨ t' = 2) := by rw [← hty hC]; exact hC
+            simp [hC, hC', hs, hty hC]
+        · rw [if_neg hin]
+          rw [if_neg hin] at hfw
+          rcases vget_saveView_cases db v' hn' k with hc | ⟨hc, e2, he2, hkeep⟩
+          · rw [hdb1, hc, hfw]
+          · rw [hdb1, hc, ← hfw, he2]
+            obtain ⟨hs2, hC2⟩ := keep_false hkeep
+            simp [proj, hs2, hC2]
+      · intro k hkU
+        have hU' : k ∈ keys (goneOuts t.outs) := by rw [keys_goneOuts h true]; exact hkU
+        obtain ⟨e, he, hu⟩ := updAll_mem hU' ρ1
+        have : proj (vget (saveView db1 v2) k) = proj (some e) := by
+          rw [proj_save hn2, hsem, detachOutputF_eq, hu]
+        rw [spendProj_of_proj this]
+        exact spendProj_spent (goneOuts_spent he)
+
+/-- the hypotheses on a table that is not the table of any replayed chain (a spent vote record
+    with height 7 sits next to the coinbase output that `blk1`'s second transaction spends) -/
+example : (applyBlockTxs p1 1 true [blk1.2[1]!] (loadSpent [(1, ⟨1, 0, false⟩), (50, ⟨2, 7, true⟩)] [blk1.2[1]!] [])).isSome ∧
+    (∀ k ∈ keys (utxoOuts 1 true (blk1.2[1]!).outs), k ∉ (blk1.2[1]!).ins) ∧
+    (∀ k ∈ (blk1.2[1]!).ins, ∀ e, vget [(1, (⟨1, 0, false⟩ : Entry)), (50, ⟨2, 7, true⟩)] k = some e →
+      ∃ t', utxoType (kind1 k) = some t' ∧ (¬ (e.typ = 1 ∨ e.typ = 2) → e.typ = t')) := by
+  refine ⟨by decide, by decide, ?_⟩
+  intro k hk e he
+  have : k = 1 := by simpa [blk1] using hk
+  subst this
+  have : e = ⟨1, 0, false⟩ := by
+    have h' : vget [(1, (⟨1, 0, false⟩ : Entry)), (50, ⟨2, 7, true⟩)] 1 = some ⟨1, 0, false⟩ := by decide
+    rw [h'] at he; exact (Option.some.inj he).symm
+  subst this
+  exact ⟨0, by decide, by decide⟩
+
 /-! ## 2. Reorganisation = replay of the new main chain -/
 
 /-- the model's `ledgerReorg` is `reorgCore` on the transactions of the named blocks -/
